@@ -45,7 +45,7 @@ func c09(c *Ctx) {
 				if !cc.IsInvoke() || !engine.IsNamed(cc.Value.Type(), "store", "Store") {
 					continue
 				}
-				name := cc.Method.Name()
+				name := engine.MethodName(cc.Method)
 				if name != "Get" && name != "Set" && name != "Delete" {
 					continue
 				}
@@ -100,7 +100,7 @@ func c09(c *Ctx) {
 					if sc := call.Call.StaticCallee(); sc != nil && engine.ShortName(sc) == "NewInternalMessageID" {
 						continue
 					}
-					if call.Call.IsInvoke() && call.Call.Method.Name() == "CreateMessage" {
+					if call.Call.IsInvoke() && engine.MethodName(call.Call.Method) == "CreateMessage" {
 						continue
 					}
 				}
@@ -234,7 +234,7 @@ func c09(c *Ctx) {
 		}
 		sc := cs.Common().StaticCallee()
 		if sc == nil {
-			if cs.Common().IsInvoke() && cs.Common().Method.Name() == "WriteTo" {
+			if cs.Common().IsInvoke() && engine.MethodName(cs.Common().Method) == "WriteTo" {
 				return "decompressor.WriteTo", true
 			}
 			return "", false
@@ -256,7 +256,7 @@ func c09(c *Ctx) {
 		for _, cl := range engine.WithClosuresAndHandedOut(get)[1:] {
 			for _, cs := range engine.Calls(cl) {
 				cc := cs.Common()
-				if !(cc.IsInvoke() && cc.Method.Name() == "Open") {
+				if !(cc.IsInvoke() && engine.MethodName(cc.Method) == "Open") {
 					continue
 				}
 				found = true
@@ -310,12 +310,12 @@ func c09(c *Ctx) {
 			if !cc.IsInvoke() || !engine.IsNamed(cc.Value.Type(), "store", "Store") {
 				continue
 			}
-			if cc.Method.Name() == "Close" {
+			if engine.MethodName(cc.Method) == "Close" {
 				continue // lifecycle, not data access
 			}
 			raw++
 			okc := c.isAnchor(topFn(f), "internal/backend.newUser")
-			R.Check(okc, "R09.5", c.name(f)+"|raw-store."+cc.Method.Name(), P.Pos(cs.Pos()), "raw store used by the start-up scan only", "the raw store.Store is called from "+c.name(f)+", bypassing the per-id locks of WriteControlledStore")
+			R.Check(okc, "R09.5", c.name(f)+"|raw-store."+engine.MethodName(cc.Method), P.Pos(cs.Pos()), "raw store used by the start-up scan only", "the raw store.Store is called from "+c.name(f)+", bypassing the per-id locks of WriteControlledStore")
 		}
 	}
 	R.Stats["R09.5 raw store.Store calls outside package store"] = raw
@@ -523,7 +523,7 @@ func (c *Ctx) truncationIsAnError() {
 	n := 0
 	for _, cs := range engine.Calls(f) {
 		isWT := false
-		if cs.Common().IsInvoke() && cs.Common().Method.Name() == "WriteTo" {
+		if cs.Common().IsInvoke() && engine.MethodName(cs.Common().Method) == "WriteTo" {
 			isWT = true
 		}
 		if sc := cs.Common().StaticCallee(); sc != nil && engine.ShortName(sc) == "WriteTo" && strings.Contains(engine.PkgPathOf(sc), "lz4") {
@@ -632,7 +632,7 @@ func (c *Ctx) uncheckedDeleteOnlyFresh(rule string) {
 							if sc := call.Call.StaticCallee(); sc != nil && engine.ShortName(sc) == "NewInternalMessageID" {
 								continue
 							}
-							if call.Call.IsInvoke() && call.Call.Method.Name() == "CreateMessage" {
+							if call.Call.IsInvoke() && engine.MethodName(call.Call.Method) == "CreateMessage" {
 								continue // id generated by the connector layer for the message being created
 							}
 						}
@@ -731,7 +731,7 @@ func (c *Ctx) hashIsOfInput() {
 	for _, f := range c.productFuncs() {
 		for _, cs := range engine.Calls(f) {
 			cc := cs.Common()
-			if !cc.IsInvoke() || cc.Method.Name() != "Sum" || !strings.HasSuffix(cc.Value.Type().String(), "hash.Hash") {
+			if !cc.IsInvoke() || engine.MethodName(cc.Method) != "Sum" || !strings.HasSuffix(cc.Value.Type().String(), "hash.Hash") {
 				continue
 			}
 			n++
@@ -764,7 +764,7 @@ func (c *Ctx) hashIsOfInput() {
 					}
 					return false
 				}
-				if c2.IsInvoke() && c2.Method.Name() == "Write" && same(c2.Value) {
+				if c2.IsInvoke() && engine.MethodName(c2.Method) == "Write" && same(c2.Value) {
 					fed = true
 				}
 				for _, a := range c2.Args {
@@ -778,7 +778,7 @@ func (c *Ctx) hashIsOfInput() {
 				for _, g := range engine.WithClosures(f)[1:] {
 					for _, cs3 := range engine.Calls(g) {
 						c3 := cs3.Common()
-						if c3.IsInvoke() && c3.Method.Name() == "Write" && strings.HasSuffix(c3.Value.Type().String(), "hash.Hash") {
+						if c3.IsInvoke() && engine.MethodName(c3.Method) == "Write" && strings.HasSuffix(c3.Value.Type().String(), "hash.Hash") {
 							fed = true
 						}
 					}
